@@ -35,7 +35,7 @@ ASSUMPTIONS = [
     "runs stopped by max_failures are only required to report at least one failure and a non-zero exit code",
 ]
 MIN_EVALUATIONS = {"quick": 150, "thorough": 2000}
-MIN_NONTRIVIAL = {"quick": 80, "thorough": 800}
+MIN_NONTRIVIAL = {"quick": 80, "thorough": 600}
 REACH_FLOORS = {"ground_truth_failures": 40, "faults_fired": 30, "clean_runs_exit0": 5, "cli_runs": 10}
 SHARD_TIMEOUT = {"quick": 900, "thorough": 5400}
 
@@ -288,7 +288,7 @@ def gen_cases(tier, seed):
     if tier == "thorough":
         extra = []
         for c in cases:
-            for s in (2, 3):
+            for s in (2, 3, 4, 5):
                 extra.append(dict(c, seed=seed + s))
         cases += extra
     rng.shuffle(cases)
